@@ -42,6 +42,9 @@ pub struct Style {
     pub block_shuffle: u64,
     /// print `Comp::Monadic` blocks without the `@[monadic]` annotation and the monad arguments (the plain twin)
     pub erase_monadic: bool,
+    /// give an annotated variable binder the name of a type alias that is used only in its own annotation
+    /// (`let ty7 = D0 that … fn (ty7 : ty7) => … ty7 …`): a binder does not scope over its own annotation
+    pub pun_binders: bool,
 }
 
 impl Style {
@@ -59,6 +62,7 @@ impl Style {
             block_lets: false,
             block_shuffle: 0,
             erase_monadic: false,
+            pun_binders: false,
         }
     }
     pub fn describe(&self) -> String {
@@ -73,7 +77,7 @@ impl Style {
             if self.telescopes { "+telescopes" } else { "" },
             if self.field_suffix.is_empty() { "" } else { "+renamed-fields" },
             if self.standard_builtin { "+std-builtin" } else { "" },
-        ) + if self.block_lets { "+blocks" } else { "" } + if self.block_shuffle != 0 { "+shuffled-blocks" } else { "" }
+        ) + if self.block_lets { "+blocks" } else { "" } + if self.block_shuffle != 0 { "+shuffled-blocks" } else { "" } + if self.pun_binders { "+pun-binders" } else { "" }
     }
 }
 
@@ -98,6 +102,8 @@ pub struct Printer<'a> {
     pub applied: Option<String>,
     /// the kind of every injection site passed, in order
     pub site_kinds: Vec<String>,
+    /// type aliases introduced for punned binders: (alias name, type text), printed with the declarations
+    pub aliases: Vec<(String, String)>,
 }
 
 const POOL: &[&str] = &["a", "b", "c", "x", "y", "z"];
@@ -115,7 +121,25 @@ impl<'a> Printer<'a> {
             sites: 0,
             applied: None,
             site_kinds: Vec::new(),
+            aliases: Vec::new(),
         }
+    }
+
+    /// Under `pun_binders`: rename the variable binder `v` (already named, last in `vis`) to a fresh type alias of its
+    /// closed annotation and return the alias, which is then printed both as the binder and as its annotation.
+    fn pun_binder(&mut self, pat: &Pat, ty_text: &str, closed: bool, vis: &mut Vec<(String, VarId)>) -> Option<String> {
+        let Pat::Var(v) = pat else { return None };
+        if !self.style.pun_binders || !closed || self.mutation.is_some() || !self.rng.chance(1, 2) {
+            return None;
+        }
+        self.counter += 1;
+        let alias = format!("ty{}", self.counter);
+        self.names.insert(*v, alias.clone());
+        if let Some(last) = vis.iter_mut().rev().find(|(_, x)| x == v) {
+            last.0 = alias.clone();
+        }
+        self.aliases.push((alias.clone(), ty_text.to_string()));
+        Some(alias)
     }
 
     /// Count an error-injection site; true if this is the one to mutate.
@@ -465,7 +489,11 @@ impl<'a> Printer<'a> {
                 let tail_ref: &Comp = tail;
                 self.pat_names(pat, &|x| free_in_comp(tail_ref, x), &mut vis2, &mut Vec::new());
                 let p = self.binder_pat(pat, vt);
+                let punned = if annotate { let closed = !vt.mentions_tyvar(); let text = self.vty(vt, 5); self.pun_binder(pat, &text, closed, &mut vis2) } else { None };
                 let t = self.comp(tail, ty, checked, &vis2);
+                if let Some(alias) = punned {
+                    return format!("let {} : {} = {} in\n{}", alias, alias, v, t);
+                }
                 if annotate {
                     let tys = self.vty(vt, 5);
                     let tys = if self.site("wrong-annotation") {
@@ -502,6 +530,10 @@ impl<'a> Printer<'a> {
                     (if matches!(pty, VTy::Int) { "String" } else { "Int64" }).to_string()
                 } else {
                     tys
+                };
+                let (p, tys) = match self.pun_binder(pat, &tys, !pty.mentions_tyvar(), &mut vis2) {
+                    | Some(alias) => (alias.clone(), alias),
+                    | None => (p, tys),
                 };
                 let b = self.comp(body, &result, checked, &vis2);
                 if self.style.telescopes && b.starts_with("fn ") {
@@ -589,6 +621,10 @@ impl<'a> Printer<'a> {
                 let name = self.choose_name(*var, &|x| free_in_comp(body_ref, x), &vis2);
                 vis2.push((name.clone(), *var));
                 let tys = self.vty(&thk(fty.clone()), 5);
+                let (name, tys) = match self.pun_binder(&Pat::Var(*var), &tys, !fty.mentions_tyvar(), &mut vis2) {
+                    | Some(alias) => (alias.clone(), alias),
+                    | None => (name, tys),
+                };
                 let b = self.comp(body, fty, true, &vis2);
                 format!("fix ({} : {}) =>\n{}", name, tys, b)
             }
@@ -845,6 +881,9 @@ pub fn program_text_mut(program: &Program, style: &Style, seed: u64, mutation: O
         r.shuffle(&mut decls);
     }
     let body = p.comp(&program.body, &CTy::OS, false, &Vec::new());
+    for (alias, ty) in &p.aliases {
+        decls.push(format!("let {} = {}", alias, ty));
+    }
     if decls.is_empty() {
         text.push_str(&body);
         text.push('\n');
